@@ -18,6 +18,7 @@ import BV.Lemmas.HuffmanPrefix
 import BV.Lemmas.HuffmanCreate
 import BV.Lemmas.HuffmanEntry
 import BV.Lemmas.HuffmanRead
+import BV.Lemmas.HuffmanStoreRead
 
 namespace BV.Props.C17
 open BV.Gen BV.Bits BV.Huffman
@@ -517,5 +518,39 @@ theorem store_tree_roundtrip_instances :
         (List.replicate h.length 0) (List.replicate h.length 0) []).bind
         (fun r => .ok (readPrefixCode h.length r.2.2 == some (r.1, []))) = .ok true) := by
   decide +kernel
+
+
+open BV.Lemmas.HuffmanStoreRead in
+/-- `store_tree_roundtrip`, PARTIAL: the body of a complex prefix code description.
+For every Kraft-complete depth vector `d` (entries `≤ 15`), either value of the
+two RLE switches, and every code-length code `cl`/`clBits` that is usable
+(`ClCode`: 18 lengths `≤ 15`, Kraft sum `≤ 1`, two or more used symbols, patterns
+= bit-reversed canonical codes) and covers the emitted code-length symbols
+(`ValidEntry`: symbol in use, extra bits in range), what
+`BrotliStoreHuffmanTreeToBitMask` writes for the entries of
+`BrotliWriteHuffmanTree` passes every `BrotliWriteBits` assertion, and the
+RFC 7932 §3.5 reader (prefix-decode a code length symbol, read its extra bits,
+apply the repeat rules, stop when the code space is used up, pad with zeros)
+returns exactly `d` and stops exactly behind these bits.
+What is missing for the full statement about `BrotliStoreHuffmanTree`: the
+header (HSKIP and the code length code lengths in their fixed variable-length
+code) and the bookkeeping that the code built from the histogram of the entries
+is such a `cl` — both are covered on instances by
+`store_tree_roundtrip_instances` and `static_code_length_code_stored`, and the
+code-length code itself by `code_length_code_complete` + `canonical`. -/
+theorem store_tree_roundtrip_partial (cl clBits : List Nat) (hc : ClCode cl clBits) (d : List Nat)
+    (hd : ∀ x ∈ d, x ≤ 15) (hlen : d.length < 2 ^ 64) (hk : kraftSum 15 d = 32768)
+    (useNZ useZ : Bool)
+    (hvalid : ∀ e ∈ writeHuffmanTreeWith useNZ useZ d, ValidEntry cl e) (w rest : List Bool) :
+    ∃ bits, storeHuffmanTreeToBitMask cl clBits (writeHuffmanTreeWith useNZ useZ d) w
+        = .ok (w ++ bits) ∧
+      readLensGo cl d.length (d.length + 1) ⟨[], 8, none⟩ (bits ++ rest) = some (d, rest) :=
+  store_entries_roundtrip cl clBits hc d hd hlen hk useNZ useZ hvalid w rest
+
+open BV.Lemmas.HuffmanStoreRead in
+/-- non-vacuity: the static code-length code of the fast builder is a usable `ClCode` -/
+example : ClCode kCodeLengthDepth kCodeLengthBits :=
+  { hlen := by decide, hblen := by decide, hall := by decide, hk := by decide, h2 := by decide,
+    hbits := by decide }
 
 end BV.Props.C17
